@@ -2,26 +2,43 @@
 C18 -- jobmap computes each item once, reuses only valid results, resumes cleanly.
 
 Monitor shape: executable reference model (vmon/models/jobmapmodel.py) stepped beside the real
-`molli.pipeline.jobmap`, plus an execution log written by the scripted commands themselves.
+`molli.pipeline.jobmap` / `jobmap_sge`, plus an execution log written by the scripted commands themselves.
 
 One history = 1..4 real jobmap runs over a small library with a test driver declared exactly like molli's own
-drivers (`@Job(return_files=...).prep` / `.post`, `Job.vectorize` + `.reduce`).  The command of every job is an
-`sh -c` script that appends one line to counters/<job> (outside the scratch tree) and then behaves according to
-its attempt number: succeed / write the return file and fail / fail without it / exit 0 without it / (extension)
-kill the runner.  After every run the harness compares, against the model,
+drivers (`@Job(return_files=...).prep` / `.post`, `Job.vectorize` + `.reduce`).  Two driver shapes:
+
+  A  one named command per job; the command text spells out item, conformer and argument; two return files (one of
+     them empty, in a sub-directory); the item travels in the command line.
+  B  1-3 commands per job, named and unnamed ones, `sh ./run.sh <step>`: the command lines are the same for every
+     argument and every content of the item - script, argument and item content travel in JobInput.files only;
+     the job is declared with Job() / return_files=() (result parsed from the stdout of the main command) or with
+     one or three return files; the failure may sit on the main command (with later commands that would succeed)
+     or on an auxiliary one (before or after the main command); the post step raises on an unparsable result.
+
+Every command appends one line to counters/<job> (outside the scratch tree) and then behaves according to its
+attempt number.  After every run the harness compares, against the model,
     * executions per job in this run (lines added to its counter file): exactly the expected 0 or 1,
     * the destination library read back through a fresh handle: exactly the expected keys, each value being the
-      processed output of that very item (job, arguments, attempt recorded by the command itself),
+      processed output of that very item (job, arguments, item content, attempt recorded by the command itself),
     * destination-only keys and the other destination libraries: unchanged,
     * the call returned normally.
 A history stops at its first violating run (afterwards the real state no longer follows the model).
+
+Library keys differ from the names of the objects stored under them in most histories (two of them swapped); the
+runs of a history are issued in-process or each from its own interpreter (own PYTHONHASHSEED); through `jobmap`
+or through `jobmap_sge` with stand-ins for qsub (runs the submitted script at once) and qstat (knows no job) put
+first on PATH; with strict_hash True / False; cache_dir absolute / relative / str / Path / default, scratch_dir
+str / Path.
 """
 from __future__ import annotations
 
 import json
 import os
+import random
 import shlex
 import shutil
+import subprocess
+import sys
 import traceback
 from pathlib import Path
 
@@ -29,35 +46,76 @@ ID = "C18"
 LEVEL = "exploration"
 TECHNIQUE = ("runtime monitoring: reference model of jobmap (destination map + cache map) stepped beside real runs; "
              "exactly-once accounting from counter files written by the scripted commands")
-RULE = ("seeded histories of 1-4 real jobmap runs over libraries of 3-5 items, MoleculeLibrary single jobs and "
-        "ConformerLibrary vectorised jobs (1-3 conformers), six profiles (resume after failures / destination-only "
-        "keys / argument change with fresh destination / cache reuse with fresh destination / cache files deleted, "
-        "corrupted, copied from another job, exit code or hash rewritten / random mix incl. a killed runner), "
-        "per-job scripts keyed on the attempt number (ok, fail with and without return file, omit return file, "
-        "succeed on n-th attempt), n_workers 1-4, keyword and positional job arguments, source growing between runs; "
-        "one history per child process with a watchdog; non-trivial = at least 2 runs and some later run has both "
-        "a job to skip and a job to execute; distinct by the canonical JSON of the history")
+RULE = ("seeded histories of 1-4 real jobmap runs over libraries of 2-5 items, MoleculeLibrary single jobs and "
+        "ConformerLibrary vectorised jobs (1-3 conformers; directed histories with 11-13), nine profiles (resume "
+        "after failures / destination-only keys / argument change with fresh destination / cache reuse with fresh "
+        "destination / cache files deleted, corrupted, copied from another job, exit code, hash or files rewritten "
+        "or removed / random mix incl. a killed runner / pure cache run into a fresh destination / item edited in "
+        "the source between runs / many conformers), two driver shapes (A: one named command spelling out the "
+        "item; B: 1-3 named/unnamed commands, constant command lines, everything in JobInput.files, 0/1/3 return "
+        "files, post step that raises), per-job scripts keyed on the attempt number (ok, fail with and without "
+        "return file, omit return file, auxiliary command fails, unparsable result, succeed on n-th attempt), "
+        "keys != object names, runs in-process or one interpreter per run, jobmap or jobmap_sge (qsub/qstat "
+        "stand-ins), strict_hash True/False, cache_dir/scratch_dir argument forms, n_workers 1-4, keyword and "
+        "positional job arguments, source growing between runs; one history per child process with a watchdog; "
+        "non-trivial = at least 2 runs and some later run has both a job to skip and a job to execute (or "
+        "nothing to execute and items to deliver from the cache); distinct by the canonical JSON of the history")
 ASSUMPTIONS = [
-    "a run counts as succeeded iff its command exited 0 and the requested return file exists (the definition "
-    "_molli_run applies to its own exit status); only such a run may be reused or processed",
-    "two prepared inputs are 'the same input' iff same item (and conformer) and same job arguments; the scripted "
-    "command text (which contains item, conformer and argument) is what makes their hashes differ",
-    "the test driver's post step, like molli's own drivers, only reads the return file and does not look at the "
-    "exit code; it raises KeyError when the file is missing",
-    "cache files are located by searching the cache directory for '<job>.out' (no layout is hard-coded); they are "
-    "only touched by the tamper steps, never used by the oracle",
+    "a run counts as succeeded iff all its commands exited 0 and every requested return file exists (the "
+    "definition _molli_run applies to its own exit status); only such a run may be reused or processed",
+    "two prepared inputs are 'the same input' iff same item (and conformer), same job arguments and same content "
+    "of the item; driver A spells them into the command text, driver B ships them in JobInput.files only",
+    "the test drivers' post steps, like molli's own drivers, only read the return file / the stdout of the main "
+    "command and do not look at the exit code; they raise KeyError when the file is missing and ValueError / "
+    "IndexError when the text is not a result record; an item whose post step raises is not stored, the others are",
+    "an output with exit code 0 and all requested files is a 'success' for the cache even when the driver's post "
+    "step cannot parse it: it is not executed again (same hash, success)",
+    "cache files are located by searching below the cache home for '<key>.out' / '<key>.<i>.out' (no layout is "
+    "hard-coded); they are only touched by the tamper steps, never used by the oracle",
+    "strict_hash=False is only used in histories in which every cached output stems from the same input "
+    "(no argument change, edit or tampering): 'hash not compared, everything else as before'",
+    "jobmap_sge is driven with stand-ins for qsub (cat > file; sh file; echo id) and qstat (exit 1) found first "
+    "on PATH; nothing else of the function is replaced",
     "a history is abandoned after its first violating run",
-    "strict_hash is left at its default (True)",
 ]
 EXHAUSTIVE = False
-CHUNK_TIMEOUT = 480
+WATCHDOG = 900          # per history, seconds; expiry => inconclusive (never a verdict)
+CHUNK_TIMEOUT = WATCHDOG
 
 PROFILES = ("resume", "destonly", "argchange", "reuse", "tamper", "random")
 KINDS = ("single", "vector")
+NONSTRICT_OK = ("resume", "destonly", "reuse", "purecache", "big")
+CACHE_FORMS = ("abs-path", "abs-str", "rel-str", "rel-path", "default")
+RETFILES = {"A": ("result.txt", "logs/warnings.log"), "none": None, "empty": (), "one": ("result.txt",),
+            "three": ("result.txt", "b.log", "c.dat")}
+
+# directed histories: (driver, kind, profile, fixed decorations)
+DIRECTED = [
+    ("A", "single", "purecache", {}),
+    ("A", "vector", "purecache", {"proc": True}),
+    ("B", "single", "purecache", {"retfiles": "one", "entry": "jobmap"}),
+    ("B", "vector", "purecache", {"retfiles": "none", "proc": True, "entry": "jobmap"}),
+    ("B", "single", "purecache", {"retfiles": "empty", "entry": "sge"}),
+    ("B", "vector", "purecache", {"retfiles": "three", "entry": "sge"}),
+    ("B", "single", "edit", {"retfiles": "three", "proc": True}),
+    ("B", "single", "edit", {"retfiles": "none", "proc": False}),
+    ("B", "vector", "edit", {"retfiles": "one", "entry": "jobmap"}),
+    ("B", "vector", "edit", {"retfiles": "empty", "entry": "sge"}),
+    ("B", "vector", "big", {"retfiles": "three", "proc": True, "entry": "jobmap"}),
+    ("A", "vector", "big", {"proc": False, "entry": "jobmap"}),
+    ("B", "vector", "big", {"retfiles": "one", "entry": "sge"}),
+    ("A", "single", "resume", {"entry": "sge", "transition": 0}),
+    ("A", "vector", "resume", {"entry": "sge", "transition": 3}),
+    ("B", "single", "resume", {"entry": "sge", "retfiles": "one"}),
+    ("A", "single", "resume", {"strict": False, "entry": "jobmap", "transition": 6}),
+    ("B", "single", "reuse", {"strict": False, "retfiles": "one", "entry": "jobmap"}),
+    ("B", "vector", "resume", {"strict": False, "retfiles": "three", "proc": True}),
+]
 
 
 def REQUIRED(tier):
     k = 1 if tier == "quick" else 8
+    kd = 1 if tier == "quick" else 3        # counters fed by the directed histories (4 repetitions in thorough)
     return {
         "run.checked": 60 * k,
         "history.single.completed": 10 * k, "history.vector.completed": 10 * k,
@@ -69,15 +127,52 @@ def REQUIRED(tier):
         "dest.only-key-preserved": 6 * k, "dest.other-unchanged": 20 * k,
         "outcome.ok": 40 * k, "outcome.fail_file": 8 * k, "outcome.fail_nofile": 8 * k, "outcome.omit": 6 * k,
         "tamper.applied": 8 * k, "jobmap.returned": 60 * k,
+        # --- added after the gap review
+        # a run with nothing to execute and whole items to deliver from the cache
+        "run.nothing-to-execute.gained-from-cache": 6 * kd,
+        # second driver shape: multi-command jobs, unnamed commands, failure on / next to the main command
+        "history.driver-B.completed": 15 * k, "cmd.multi-command-job-executed": 80 * k,
+        "cmd.main-unnamed-executed": 30 * k, "cmd.main-failed.commands-behind-it": 8 * k,
+        "outcome.aux_fail": 10 * k, "cmd.aux-failed.unnamed.before-main": 4 * k,
+        # jobs without return files (Job() and return_files=()), one and three files
+        "run.return-files.0": 6 * k, "run.return-files.0.empty-tuple": 6 * k, "run.return-files.3": 10 * k,
+        "item.gained.no-return-files": 20 * k,
+        # inputs that differ in JobInput.files only (item edited in the source between two runs)
+        "job.exec.cache-other-input-files-only": 4 * kd,
+        # a post step that raises for one item; the stored output stays a valid cache entry
+        "outcome.unparsable": 10 * k, "item.absent-post-raises": 20 * k, "job.skip.valid-cache-unparsable": 8 * k,
+        # keys that are not the names of the objects
+        "run.keys-differ-from-names": 50 * k, "item.gained.key-differs-from-name": 80 * k,
+        # ensembles with >= 11 conformers, resumed and delivered from the cache
+        "item.vector.many-conformers.gained-mixed": 1 * kd, "item.vector.many-conformers.gained-from-cache": 1 * kd,
+        # runs issued from interpreters of their own; reuse of what another process cached
+        "run.own-interpreter": 40 * k, "job.skip.valid-cache.cached-by-another-process": 40 * k,
+        # strict_hash=False, jobmap_sge, argument forms
+        "run.strict-hash.off": 20 * k, "run.entry.sge": 25 * k,
+        "outcome.omit.strict-hash-off": 5 * k, "outcome.fail_file.strict-hash-off": 5 * k,
+        "run.cache-dir.abs-str": 15 * k, "run.cache-dir.rel-str": 15 * k, "run.cache-dir.rel-path": 15 * k,
+        "run.cache-dir.default": 15 * k, "run.scratch-dir.str": 40 * k,
+        # stored outputs without hash / exit code / files
+        "tamper.nohash": 1 * k, "tamper.noexit": 1 * k, "tamper.nofiles": 1 * k,
     }
 
 
+def _spread(specs, tag, options, pick=lambda s: True):
+    """seed-independent, evenly spread assignment of one decoration over the histories that do not fix it"""
+    todo = [s for s in specs if tag not in s["deco"] and pick(s)]
+    order = list(range(len(todo)))
+    random.Random(f"c18/{tag}").shuffle(order)
+    for r, i in enumerate(order):
+        todo[i]["deco"][tag] = options[r % len(options)]
+
+
 def plan(tier, seed):
-    n = 48 if tier == "quick" else 576
+    quick = tier == "quick"
+    n = 48 if quick else 576
     specs = []
     for i in range(n):
-        specs.append({"hist": i, "kind": KINDS[i % 2], "profile": PROFILES[(i // 2) % len(PROFILES)],
-                      "timeout": 480})
+        specs.append({"hist": i, "driver": "A", "kind": KINDS[i % 2], "profile": PROFILES[(i // 2) % len(PROFILES)],
+                      "timeout": WATCHDOG, "deco": {}})
     # the resume histories walk through all nine (unsuccessful, unsuccessful) outcome transitions of one item
     extra = 0
     for sp in specs:
@@ -85,7 +180,40 @@ def plan(tier, seed):
             sp["transition"] = extra
             extra += 1
     for t in range(extra, 9):          # quick has 8 resume histories: add what is missing so that all 9 pairs occur
-        specs.append({"hist": n + t, "kind": KINDS[t % 2], "profile": "resume", "transition": t, "timeout": 480})
+        specs.append({"hist": n + t, "driver": "A", "kind": KINDS[t % 2], "profile": "resume", "transition": t,
+                      "timeout": WATCHDOG, "deco": {}})
+    # the second driver shape
+    nb = 24 if quick else 192
+    for i in range(nb):
+        specs.append({"hist": 10000 + i, "driver": "B", "kind": KINDS[i % 2],
+                      "profile": PROFILES[(i // 2) % len(PROFILES)], "timeout": WATCHDOG, "deco": {}})
+    # directed histories
+    for rep in range(1 if quick else 4):
+        for i, (drv, kind, prof, deco) in enumerate(DIRECTED):
+            deco = dict(deco)
+            sp = {"hist": 20000 + 100 * rep + i, "driver": drv, "kind": kind, "profile": prof, "timeout": WATCHDOG}
+            if "transition" in deco:
+                sp["transition"] = deco.pop("transition") + rep
+            sp["deco"] = deco
+            specs.append(sp)
+    A = [s for s in specs if s["driver"] == "A"]
+    B = [s for s in specs if s["driver"] == "B"]
+    for s in A:
+        s["deco"]["retfiles"] = "A"
+    _spread(A, "proc", [False, True, False])
+    _spread(B, "proc", [True, False])
+    _spread(A, "entry", ["jobmap", "jobmap", "jobmap", "sge"])
+    _spread(B, "entry", ["jobmap", "sge", "jobmap", "jobmap"])
+    _spread(A, "strict", [True, True, False], lambda s: s["profile"] in NONSTRICT_OK)
+    _spread(B, "strict", [True, False], lambda s: s["profile"] in NONSTRICT_OK)
+    _spread(specs, "cacheform", list(CACHE_FORMS))
+    _spread(A, "names", ["same", "differ", "same", "swap"])
+    _spread(B, "names", ["differ", "swap", "differ", "same"])
+    _spread(B, "retfiles", ["none", "empty", "one", "three"])
+    _spread(specs, "tamper_op", ["nohash", "noexit", "nofiles", "rehash", "flip_exit", "copy"],
+            lambda s: s["profile"] == "tamper")
+    for s in specs:
+        s["deco"].setdefault("strict", True)
     return specs
 
 
@@ -93,6 +221,7 @@ def plan(tier, seed):
 # history generation (stdlib only; also used by the model-only self test)
 # ======================================================================================================
 KEY_POOL = ["m1", "m10", "mol-2", "k_3", "Et3N", "x4", "b7a", "q"]
+NAME_POOL = ["benzene", "tol-1", "c7", "Ph3P", "w_2", "n9", "a3b", "zz"]
 ONLY_POOL = ["zz-only", "m1x", "old_9"]
 
 P_RESUME = [["ok"], ["fail_nofile", "ok"], ["fail_file", "ok"], ["omit", "ok"], ["fail_file", "fail_nofile", "ok"],
@@ -103,42 +232,117 @@ P_TRANSITIONS = [[a, b, "ok"] for a in ("fail_file", "fail_nofile", "omit") for 
 P_REEXEC = [["ok"], ["ok"], ["ok", "fail_file"], ["ok", "omit"], ["ok", "fail_nofile"], ["ok", "ok", "fail_file"],
             ["fail_file", "ok"], ["omit", "ok"], ["ok", "fail_file", "ok"]]
 P_CRASH = [["ok", "crash"], ["crash", "ok"], ["ok", "crash", "ok"]]
+P_UNPARSABLE = [["unparsable"], ["unparsable", "ok"], ["fail_file", "unparsable"], ["fail_nofile", "unparsable", "ok"]]
+TAMPER_OPS = ["delete", "corrupt", "corrupt", "copy", "copy", "flip_exit", "rehash", "nohash", "noexit", "nofiles"]
 
 MAX_EXEC = {"quick": 16, "thorough": 24}
 
 
-def gen_history(rng, kind, profile, tier="quick", transition=None):
-    from vmon.models import jobmapmodel as jm
+def gen_history(rng, spec, tier="quick"):
+    kind, profile, driver = spec["kind"], spec["profile"], spec.get("driver", "A")
+    deco = spec.get("deco", {})
+    transition = spec.get("transition")
+    alt = driver == "B"
 
-    n_items = rng.randint(3, 5) if kind == "single" else rng.randint(3, 4)
-    keys = rng.sample(KEY_POOL, n_items)
-    if kind == "vector":
-        confs = {k: rng.choice([1, 2, 2, 3]) for k in keys}
-        if all(c == 1 for c in confs.values()):
-            confs[keys[0]] = 2
-        jobs = {k: [f"{k}.{c}" for c in range(confs[k])] for k in keys}
+    if profile == "big":
+        keys = rng.sample(KEY_POOL, 2)
+        confs = {keys[0]: rng.randint(11, 13), keys[1]: 2}
     else:
+        n_items = rng.randint(3, 5) if kind == "single" else rng.randint(3, 4)
+        if alt:
+            n_items = min(n_items, 4)
+        keys = rng.sample(KEY_POOL, n_items)
         confs = {}
-        jobs = {k: [k] for k in keys}
+        if kind == "vector":
+            confs = {k: rng.choice([1, 2, 2, 3]) for k in keys}
+            if all(c == 1 for c in confs.values()):
+                confs[keys[0]] = 2
+    n_items = len(keys)
+    jobs = {k: ([f"{k}.{c}" for c in range(confs[k])] if kind == "vector" else [k]) for k in keys}
     all_jobs = [j for k in keys for j in jobs[k]]
 
+    # ---- names of the stored objects
+    how = deco.get("names", "same")
+    names = {k: k for k in keys}
+    if how in ("differ", "swap"):
+        names = dict(zip(keys, rng.sample(NAME_POOL, n_items)))
+    if how == "swap":
+        a, b = rng.sample(keys, 2)
+        names[a], names[b] = b, a
+
+    # ---- what the commands do
     pool = {"resume": P_RESUME, "destonly": P_RESUME, "argchange": P_REEXEC, "reuse": P_RESUME,
-            "tamper": P_REEXEC, "random": P_RESUME + P_REEXEC + P_CRASH}[profile]
+            "tamper": P_REEXEC, "random": P_RESUME + P_REEXEC + P_CRASH, "purecache": [["ok"]],
+            "edit": P_REEXEC, "big": [["ok"]]}[profile]
     plans = {j: list(rng.choice(pool)) for j in all_jobs}
+    pinned = set()          # jobs whose plan is a guaranteed ingredient of the profile
+
+    def pin(j, p):
+        plans[j] = list(p)
+        pinned.add(j)
+
     if profile == "argchange" and rng.random() < 0.6:
-        plans[all_jobs[1]] = ["ok", "crash"]      # extension: the runner dies during the re-execution
+        pin(all_jobs[1], ["ok", "crash"])      # extension: the runner dies during the re-execution
     if profile in ("resume", "reuse", "destonly"):
         # guarantee a first-attempt failure, a plain success and (vector) a half-failed item
-        plans[all_jobs[0]] = ["ok"]
-        plans[all_jobs[-1]] = list(rng.choice([["fail_nofile", "ok"], ["fail_file", "ok"], ["omit", "ok"]]))
+        pin(all_jobs[0], ["ok"])
+        pin(all_jobs[-1], rng.choice([["fail_nofile", "ok"], ["fail_file", "ok"], ["omit", "ok"]]))
+        if not deco.get("strict", True):
+            pin(all_jobs[-1], ["omit", "ok"])       # exit 0 without the file: the other half of 'valid'
         if profile == "resume" and len(all_jobs) >= 3:
-            plans[all_jobs[1]] = list(P_TRANSITIONS[transition % len(P_TRANSITIONS)] if transition is not None
-                                      else rng.choice(P_TRANSITIONS))
+            pin(all_jobs[1], P_TRANSITIONS[transition % len(P_TRANSITIONS)] if transition is not None
+                else rng.choice(P_TRANSITIONS))
         if kind == "vector":
             multi = [k for k in keys if confs[k] > 1]
             k = rng.choice(multi)
-            plans[jobs[k][0]] = ["ok"]
-            plans[jobs[k][1]] = list(rng.choice([["fail_file", "ok"], ["fail_nofile", "ok"], ["omit", "ok"]]))
+            pin(jobs[k][0], ["ok"])
+            pin(jobs[k][1], rng.choice([["fail_file", "ok"], ["fail_nofile", "ok"], ["omit", "ok"]]))
+    if profile == "big":
+        big = jobs[keys[0]]
+        pin(big[10], rng.choice([["fail_file", "ok"], ["fail_nofile", "ok"], ["omit", "ok"]]))
+        pin(big[rng.randint(1, 9)], rng.choice([["fail_file", "ok"], ["ok"]]))
+    # the post step raises for one item (its commands succeeded): every other item is stored as usual
+    if profile in ("reuse", "random", "purecache", "edit") or (alt and profile in ("resume", "destonly")):
+        free = [j for j in all_jobs[1:] if j not in pinned]
+        if free and (alt or profile == "purecache" or rng.random() < 0.5):
+            pin(rng.choice(free), rng.choice(P_UNPARSABLE if profile != "purecache" else P_UNPARSABLE[:2]))
+
+    # ---- driver shape B: commands per job
+    shapes = {}
+    retfiles = deco.get("retfiles", "A" if not alt else "one")
+    nofiles = retfiles in ("none", "empty")
+    if alt:
+        for j in all_jobs:
+            k = rng.choice([1, 2, 2, 3, 3])
+            main = rng.randrange(k)
+            aux = rng.choice([s for s in range(k) if s != main]) if k > 1 else None
+            named = [rng.random() < 0.5 for _ in range(k)]
+            if nofiles:
+                named[main] = True          # the result is read from the stdout of the main command
+            shapes[j] = {"k": k, "main": main, "aux": aux, "named": named}
+        for j in all_jobs:
+            sh_ = shapes[j]
+            p = plans[j]
+            for i, m in enumerate(p):
+                if m == "fail_nofile" and sh_["aux"] is not None and rng.random() < 0.7:
+                    p[i] = "aux_fail"
+                elif m == "omit" and nofiles:      # nothing to omit: the result is printed
+                    p[i] = rng.choice(["fail_file", "fail_nofile", "unparsable"])
+        # directed: a failing main command with a command behind it, a failing unnamed auxiliary command in front of
+        # a named main command (and the other way round)
+        free = [j for j in all_jobs[1:] if j not in pinned] or ([all_jobs[-1]] if deco.get("strict", True) else [])
+        if profile in ("resume", "reuse", "destonly", "random", "argchange", "tamper") and free:
+            j = free[-1]
+            if shapes[j]["k"] == 1:
+                shapes[j] = {"k": 2, "main": 1, "aux": 0, "named": [False, True]}
+            if rng.random() < 0.5:
+                shapes[j].update(main=0, aux=shapes[j]["k"] - 1)
+                shapes[j]["named"][0] = True
+                plans[j] = list(rng.choice([["fail_file", "ok"], ["aux_fail", "ok"]]))
+            else:
+                shapes[j].update(main=shapes[j]["k"] - 1, aux=0)
+                shapes[j]["named"] = [False] + shapes[j]["named"][1:-1] + [True]
+                plans[j] = list(rng.choice([["aux_fail", "ok"], ["aux_fail", "fail_file", "ok"]]))
 
     # sources: normally one; sometimes the source grows before a later run
     sources = [list(keys)]
@@ -146,14 +350,23 @@ def gen_history(rng, kind, profile, tier="quick", transition=None):
     prepop = {}
     runs = []
 
-    def run(arg, dest, tamper=(), source=0):
+    def run(arg, dest, tamper=(), source=0, edit=()):
         return {"arg": arg, "dest": dest, "n_workers": rng.randint(1, 4), "tamper": [list(t) for t in tamper],
-                "source": source, "positional": rng.random() < 0.3}
+                "source": source, "positional": rng.random() < 0.3, "edit": list(edit) if alt else [],
+                "scratchform": rng.choice(["path", "str"]), "hashseed": rng.randint(1, 4000)}
 
     def some(seq, lo, hi):
         seq = list(seq)
         n = min(len(seq), rng.randint(lo, hi))
         return rng.sample(seq, n)
+
+    def tamper_op(j):
+        op = rng.choice(TAMPER_OPS)
+        if op == "copy":
+            return ("copy", rng.choice([o for o in all_jobs if o != j]), j)
+        if op == "corrupt":
+            return ("corrupt", j, rng.choice(["empty", "garbage", "truncate", "text"]))
+        return (op, j)
 
     if profile == "resume":
         if rng.random() < 0.4:
@@ -187,18 +400,41 @@ def gen_history(rng, kind, profile, tier="quick", transition=None):
             ops = []
             victims = some(all_jobs, 1, 3)
             for j in victims:
-                op = rng.choice(["delete", "corrupt", "corrupt", "copy", "copy", "flip_exit", "rehash"])
+                op = tamper_op(j)
                 if r == 1 and not ops:
-                    op = "corrupt"      # every tamper history has an unreadable cache file in front of a fresh destination
-                if op == "copy":
-                    others = [o for o in all_jobs if o != j]
-                    ops.append(("copy", rng.choice(others), j))
-                elif op == "corrupt":
-                    ops.append(("corrupt", j, rng.choice(["empty", "garbage", "truncate", "text"])))
-                else:
-                    ops.append((op, j))
+                    # every tamper history has an unreadable cache file in front of a fresh destination
+                    op = ("corrupt", j, rng.choice(["empty", "garbage", "truncate", "text"]))
+                ops.append(op)
+            if r == 1 and deco.get("tamper_op"):
+                # ... and one rewritten / removed field in the stored output of a run that had succeeded
+                good = [j for j in all_jobs if plans[j][0] == "ok" and j not in victims] or \
+                       [j for j in all_jobs if plans[j][0] == "ok" and j != victims[0]]
+                if good:
+                    j = rng.choice(good)
+                    ops = [o for o in ops if o[-1] != j and o[1] != j]
+                    op = deco["tamper_op"]
+                    ops.append(("copy", rng.choice([o for o in all_jobs if o != j]), j) if op == "copy" else (op, j))
             runs.append(run("a", r, tamper=ops))
             r += 1
+    elif profile == "purecache":
+        # everything succeeds in run 1; the later runs have nothing to execute but whole destinations to fill
+        if rng.random() < 0.5:
+            prepop[1] = {"src": [], "only": some(ONLY_POOL, 1, 1)}
+        runs.append(run("a", 0))
+        runs.append(run("a", 1))
+        if rng.random() < 0.6:
+            runs.append(run("a", 2))
+    elif profile == "edit":
+        # same key, same name, same command line: only the content of the item (JobInput.files) changes
+        runs.append(run("a", 0))
+        runs.append(run("a", 1, edit=some(keys, 2, 3)))
+        tail = rng.choice([[(0, 0)], [(2, 1)], [(2, 1), (1, 0)], [(2, 2)]])
+        for d, ne in tail:
+            runs.append(run("a", d, edit=some(keys, ne, ne) if ne else ()))
+    elif profile == "big":
+        runs.append(run("a", 0))
+        runs.append(run("a", 0))
+        runs.append(run("a", 1))
     else:  # random
         for d in range(3):
             if rng.random() < 0.35:
@@ -206,15 +442,9 @@ def gen_history(rng, kind, profile, tier="quick", transition=None):
         for _ in range(rng.randint(1, 4)):
             ops = []
             if runs and rng.random() < 0.35:
-                j = rng.choice(all_jobs)
-                op = rng.choice(["delete", "corrupt", "copy", "flip_exit", "rehash"])
-                if op == "copy":
-                    ops.append(("copy", rng.choice([o for o in all_jobs if o != j]), j))
-                elif op == "corrupt":
-                    ops.append(("corrupt", j, rng.choice(["empty", "garbage", "truncate", "text"])))
-                else:
-                    ops.append((op, j))
-            runs.append(run(rng.choice("aab"), rng.randrange(3), tamper=ops))
+                ops.append(tamper_op(rng.choice(all_jobs)))
+            ed = some(keys, 1, 1) if alt and runs and rng.random() < 0.25 else ()
+            runs.append(run(rng.choice("aab"), rng.randrange(3), tamper=ops, edit=ed))
         if rng.random() < 0.25 and n_items >= 4 and len(runs) >= 2:
             sources = [keys[:-1], list(keys)]
             grow_at = rng.randint(1, len(runs) - 1)
@@ -222,11 +452,16 @@ def gen_history(rng, kind, profile, tier="quick", transition=None):
         for i, r in enumerate(runs):
             r["source"] = 0 if i < grow_at else 1
 
-    H = {"kind": kind, "profile": profile, "keys": keys, "confs": confs, "plans": plans,
+    H = {"kind": kind, "profile": profile, "driver": driver, "keys": keys, "confs": confs, "names": names,
+         "plans": plans, "shapes": shapes, "retfiles": retfiles,
+         "proc": bool(deco.get("proc", False)), "entry": deco.get("entry", "jobmap"),
+         "strict": bool(deco.get("strict", True)) or profile not in NONSTRICT_OK,
+         "cacheform": deco.get("cacheform", "abs-path"),
          "prepop": {str(d): v for d, v in prepop.items()}, "sources": sources, "runs": runs}
 
     # bound the cost: drop trailing runs while the model predicts too many executions
-    while len(H["runs"]) > 1 and sum(x.n_exec() for x in simulate_history(H)) > MAX_EXEC.get(tier, 22):
+    limit = MAX_EXEC.get(tier, 22) - (4 if alt and profile != "edit" else 0)
+    while profile != "big" and len(H["runs"]) > 1 and sum(x.n_exec() for x in simulate_history(H)) > limit:
         H["runs"].pop()
     return H
 
@@ -235,6 +470,19 @@ def jobs_of(H, key):
     if H["kind"] == "vector":
         return [f"{key}.{c}" for c in range(H["confs"][key])]
     return [key]
+
+
+def key_of(H, job):
+    return job.rsplit(".", 1)[0] if H["kind"] == "vector" else job
+
+
+def cjob(H, job):
+    """the name under which the scripted command of `job` counts its executions: the driver only sees the object
+    (its name, the conformer index), never the key it is stored under"""
+    if H["kind"] == "vector":
+        k, c = job.rsplit(".", 1)
+        return f"{H['names'][k]}.{c}"
+    return H["names"][job]
 
 
 def source_map(H, idx):
@@ -248,7 +496,8 @@ def pre_value(key):
 def model_for(H):
     from vmon.models import jobmapmodel as jm
 
-    m = jm.JobMapModel(H["plans"])
+    aux_after = {j: (s["aux"] is not None and s["aux"] > s["main"]) for j, s in H["shapes"].items()}
+    m = jm.JobMapModel(H["plans"], needs_files=H["retfiles"] not in ("none", "empty"), aux_after_main=aux_after)
     for d, pp in H["prepop"].items():
         for k in pp["src"] + pp["only"]:
             m.prepopulate(int(d), k, pre_value(k))
@@ -263,31 +512,43 @@ def simulate_history(H):
     m = model_for(H)
     out = []
     for r in H["runs"]:
+        for k in r.get("edit", ()):
+            m.edit(k)
         for t in r["tamper"]:
             jm.apply_tamper(m, t)
-        x = m.step(source_map(H, r["source"]), r["dest"], r["arg"])
+        x = m.step(source_map(H, r["source"]), r["dest"], r["arg"], strict=H["strict"])
         m.commit(x)
         out.append(x)
     return out
 
 
+def pure_cache_run(x):
+    return x.n_exec() == 0 and any(v == "gained-from-cache" for v in x.item.values())
+
+
 def nontrivial(expects):
-    return len(expects) >= 2 and any(x.n_exec() > 0 and x.n_skip() > 0 for x in expects[1:])
+    return len(expects) >= 2 and any((x.n_exec() > 0 and x.n_skip() > 0) or pure_cache_run(x) for x in expects[1:])
 
 
 def brief(H, expects):
-    return {"kind": H["kind"], "profile": H["profile"], "items": len(H["keys"]),
-            "conformers": H["confs"] or None,
+    return {"kind": H["kind"], "profile": H["profile"], "driver": H["driver"], "items": len(H["keys"]),
+            "conformers": H["confs"] or None, "names": None if all(k == v for k, v in H["names"].items()) else H["names"],
+            "return_files": RETFILES[H["retfiles"]], "separate_processes": H["proc"], "entry": H["entry"],
+            "strict_hash": H["strict"], "cache_dir_form": H["cacheform"],
             "prepop": H["prepop"] or None,
             "runs": [{"arg": r["arg"], "dest": r["dest"], "w": r["n_workers"], "tamper": r["tamper"] or None,
+                      "edit": r.get("edit") or None,
                       "expect_exec": x.n_exec(), "expect_skip": x.n_skip()} for r, x in zip(H["runs"], expects)],
-            "plans": {j: "/".join(p) for j, p in list(H["plans"].items())[:6]}}
+            "plans": {j: "/".join(p) for j, p in list(H["plans"].items())[:6]},
+            "commands": {j: {"n": s["k"], "main": s["main"], "aux": s["aux"], "named": s["named"]}
+                         for j, s in list(H["shapes"].items())[:6]} or None}
 
 
 # ======================================================================================================
-# the scripted command
+# the scripted commands
 # ======================================================================================================
 def make_script(cdir, job, arg, plan):
+    """driver shape A: one command; item, argument and plan are spelled into the command text"""
     cases = " ".join(f"{i + 1}) m={m};;" for i, m in enumerate(plan[:-1])) + f" *) m={plan[-1]};;"
     tagline = f"job={job} arg={arg} attempt=$n"
     return (
@@ -300,9 +561,58 @@ def make_script(cdir, job, arg, plan):
         f'fail_file) echo "{tagline} status=partial" > result.txt; mkdir -p logs; : > logs/warnings.log; exit 3;; '
         f'fail_nofile) exit 4;; '
         f'omit) mkdir -p logs; : > logs/warnings.log; exit 0;; '
+        f'unparsable) echo "%%garbled-record%%" > result.txt; mkdir -p logs; : > logs/warnings.log; exit 0;; '
         f'crash) kill -9 $PPID; exit 0;; '
         f'esac; exit 9'
     )
+
+
+def make_script_b(cdir, job, plan, shape, retfiles):
+    """driver shape B: the file run.sh, executed as `sh ./run.sh <step>` once per command of the job.  The first
+    command counts the execution and decides the mode; argument (params.txt) and item content (input.txt) are
+    read from the files shipped with the input, so the script is the same for every argument and content."""
+    cases = " ".join(f"{i + 1}) m={m};;" for i, m in enumerate(plan[:-1])) + f" *) m={plan[-1]};;"
+    M, A = shape["main"], shape["aux"]
+    names = RETFILES[retfiles] or ()
+    side = "".join({"b.log": " : > b.log;", "c.dat": " echo 1 > c.dat;"}.get(n, "") for n in names)
+    wr = ' echo "$tag status=$1" > result.txt;' if "result.txt" in names else ""
+    garble = ' echo "%%garbled-record%%" > result.txt;' if "result.txt" in names else ""
+    lines = [
+        's=$1',
+        f'if [ "$s" = 0 ]; then f={cdir}/{job}; touch "$f"; n=$(($(wc -l < "$f")+1)); . ./params.txt; . ./input.txt; '
+        f'echo "$n $arg $ver" >> "$f"; case $n in {cases} esac; echo "n=$n; m=$m" > state.sh; fi',
+        '. ./state.sh; . ./params.txt; . ./input.txt',
+        f'tag="job={job} arg=$arg ver=$ver attempt=$n"',
+        'res() { echo "RESULT $tag status=$1";' + wr + side + ' }',
+        'case "$m:$s" in',
+        f'ok:{M}) res ok; exit 0;;',
+        f'fail_file:{M}) res partial; exit 3;;',
+        f'fail_nofile:{M}) exit 4;;',
+        f'omit:{M}){side} exit 0;;',
+        f'unparsable:{M}) echo "RESULT %%garbled-record%%";{garble}{side} exit 0;;',
+        f'crash:{M}) kill -9 $PPID; exit 0;;',
+        f'aux_fail:{M}) res ok; exit 0;;',
+    ]
+    if A is not None:
+        lines.append(f'aux_fail:{A}) exit 5;;')
+    lines += ['esac', 'exit 0', '']
+    return "\n".join(lines)
+
+
+def _qual(name):
+    """the functions below are defined inside a factory; give them the qualified names a module-level driver class
+    has (Job.name, and with it the default cache directory, is derived from it)"""
+    def deco(f):
+        f.__qualname__ = name
+        return f
+    return deco
+
+
+def parse_record(txt):
+    rec = dict(tok.split("=", 1) for tok in txt.split())      # ValueError on anything that is not a record
+    if "status" not in rec or "job" not in rec:
+        raise ValueError(f"not a result record: {txt[:60]!r}")
+    return rec
 
 
 def make_driver(cfg):
@@ -315,39 +625,148 @@ def make_driver(cfg):
         c = int(round(float(M.coords[0][0])))      # conformers carry their index, molecules carry -1
         return M.name if c < 0 else f"{M.name}.{c}"
 
-    class C18Driver(DriverBase):
+    def version(M):
+        return int(round(float(M.coords[0][2])))   # the content of the item: bumped when the item is edited
+
+    def reduce_ens(self, outputs, ens, *args, **kwargs):
+        recs = [m.attrib["c18"] for m in outputs]
+        new = ml.ConformerEnsemble(ens)
+        new.attrib = {"c18": {"obj": ens.name, "objs": [r["obj"] for r in recs],
+                              "post_args": [r["post_arg"] for r in recs], "outs": [r["out"] for r in recs]}}
+        return new
+
+    if cfg.get("driver", "A") == "A":
+        class C18Driver(DriverBase):
+            default_executable = "sh"
+
+            @Job(return_files=RETFILES["A"]).prep
+            @_qual("C18Driver.work_m")
+            def work_m(self, M, tag="a"):
+                job = job_name(M)
+                script = make_script(cfg["cdir"], job, tag, cfg["plans"][job])
+                return JobInput(
+                    M.name,
+                    commands=[(f"{self.executable} -c {shlex.quote(script)}", "work")],
+                    files={"item.txt": f"{job}\n".encode()},
+                    return_files=self.return_files,
+                )
+
+            @work_m.post
+            @_qual("C18Driver.work_m")
+            def work_m(self, out, M, tag="a", **kwargs):
+                rec = parse_record(out.files["result.txt"].decode())
+                res = ml.Molecule(M)
+                res.attrib = {"c18": {"obj": job_name(M), "post_arg": tag, "out": rec}}
+                return res
+
+            work_ens = Job.vectorize(work_m)
+            work_ens = work_ens.reduce(_qual("C18Driver.work_ens")(reduce_ens))
+
+        return C18Driver()
+
+    rf = cfg["retfiles"]
+    decl = Job() if rf == "none" else Job(return_files=RETFILES[rf])
+
+    class C18AltDriver(DriverBase):
         default_executable = "sh"
 
-        @Job(return_files=("result.txt", "logs/warnings.log")).prep
+        @decl.prep
+        @_qual("C18AltDriver.work_m")
         def work_m(self, M, tag="a"):
             job = job_name(M)
-            script = make_script(cfg["cdir"], job, tag, cfg["plans"][job])
+            shape = cfg["shapes"][job]
+            script = make_script_b(cfg["cdir"], job, cfg["plans"][job], shape, rf)
             return JobInput(
                 M.name,
-                commands=[(f"{self.executable} -c {shlex.quote(script)}", "work")],
-                files={"item.txt": f"{job}\n".encode()},
+                # the command lines do not depend on argument or item content (as for xtb / crest / orca)
+                commands=[(f"{self.executable} ./run.sh {s}", f"s{s}" if shape["named"][s] else None)
+                          for s in range(shape["k"])],
+                files={"run.sh": script.encode(), "params.txt": f"arg={tag}\n".encode(),
+                       "input.txt": f"ver={version(M)}\n".encode()},
                 return_files=self.return_files,
             )
 
         @work_m.post
+        @_qual("C18AltDriver.work_m")
         def work_m(self, out, M, tag="a", **kwargs):
-            txt = out.files["result.txt"].decode()
-            rec = dict(tok.split("=", 1) for tok in txt.split())
+            job = job_name(M)
+            if rf in ("none", "empty"):      # like XTBDriver.energy_m: the result is parsed from stdout
+                txt = out.stdouts[f"s{cfg['shapes'][job]['main']}"]
+                line = [ln for ln in txt.splitlines() if ln.startswith("RESULT ")][-1]
+                rec = parse_record(line[len("RESULT "):])
+            else:
+                rec = parse_record(out.files["result.txt"].decode())
             res = ml.Molecule(M)
-            res.attrib = {"c18": {"obj": job_name(M), "post_arg": tag, "out": rec}}
+            res.attrib = {"c18": {"obj": job, "post_arg": tag, "out": rec}}
             return res
 
         work_ens = Job.vectorize(work_m)
+        work_ens = work_ens.reduce(_qual("C18AltDriver.work_ens")(reduce_ens))
 
-        @work_ens.reduce
-        def work_ens(self, outputs, ens, *args, **kwargs):
-            recs = [m.attrib["c18"] for m in outputs]
-            new = ml.ConformerEnsemble(ens)
-            new.attrib = {"c18": {"obj": ens.name, "objs": [r["obj"] for r in recs],
-                                  "post_args": [r["post_arg"] for r in recs], "outs": [r["out"] for r in recs]}}
-            return new
+    return C18AltDriver()
 
-    return C18Driver()
+
+QSUB = "#!/bin/sh\n# stand-in: run the submitted script at once, print a job id\ncat > job.$$.sh\nsh job.$$.sh > /dev/null 2>&1\necho $$\nexit 0\n"
+QSTAT = "#!/bin/sh\n# stand-in: no job is known (every job has finished)\nexit 1\n"
+
+
+def exc_info(e):
+    a0 = e.args[0] if e.args else None
+    if isinstance(a0, bytes):
+        a0 = a0.decode(errors="replace")
+    return {"type": type(e).__name__, "msg": str(e)[:300],
+            "arg0": a0 if isinstance(a0, (str, int)) or a0 is None else repr(a0)[:120],
+            "frames": [[fr.filename, fr.name, fr.lineno, (fr.line or "")[:120]]
+                       for fr in traceback.extract_tb(e.__traceback__)]}
+
+
+def call_run(cfg):
+    """one real jobmap / jobmap_sge call described by plain data (run in-process or by vmon.models.c18_procrun in an
+    interpreter of its own); returns None when the call returned, else a description of the exception"""
+    import molli as ml
+    from molli.pipeline import jobmap, jobmap_sge
+
+    drv = make_driver(cfg["driver"])
+    vector = cfg["vector"]
+    job = drv.work_ens if vector else drv.work_m
+    Lib = ml.ConformerLibrary if vector else ml.MoleculeLibrary
+    cwd0, path0 = os.getcwd(), os.environ.get("PATH", "")
+    os.chdir(cfg["cwd"])          # the relative forms of cache_dir are resolved against it
+    try:
+        if cfg["entry"] == "sge":
+            os.environ["PATH"] = cfg["bin"] + os.pathsep + path0
+        source = Lib(cfg["src"], readonly=True)
+        dest = Lib(cfg["dst"], readonly=False)
+        kw = {}
+        form = cfg["cacheform"]
+        absolute = os.path.join(cfg["cwd"], cfg["cache_rel"])
+        if form == "abs-path":
+            kw["cache_dir"] = Path(absolute)
+        elif form == "abs-str":
+            kw["cache_dir"] = absolute
+        elif form == "rel-str":
+            kw["cache_dir"] = cfg["cache_rel"]
+        elif form == "rel-path":
+            kw["cache_dir"] = Path(cfg["cache_rel"])
+        # "default": cache_dir is not given
+        kw["scratch_dir"] = cfg["scratch"] if cfg["scratchform"] == "str" else Path(cfg["scratch"])
+        if cfg["positional"]:
+            kw["args"] = (cfg["arg"],)
+        else:
+            kw["kwargs"] = {"tag": cfg["arg"]}
+        if not cfg["strict"]:
+            kw["strict_hash"] = False
+        try:
+            if cfg["entry"] == "sge":
+                jobmap_sge(job, source, dest, update=0.05, **kw)
+            else:
+                jobmap(job, source, dest, n_workers=cfg["n_workers"], **kw)
+        except Exception as e:  # "the call returns normally"
+            return exc_info(e)
+        return None
+    finally:
+        os.environ["PATH"] = path0
+        os.chdir(cwd0)
 
 
 # ======================================================================================================
@@ -362,7 +781,7 @@ def run_chunk(spec, ctx):
     if not ctx.want(case):
         return
     rng = ctx.rng("history", spec["hist"])
-    H = gen_history(rng, spec["kind"], spec["profile"], ctx.tier, transition=spec.get("transition"))
+    H = gen_history(rng, spec, ctx.tier)
     expects = simulate_history(H)
     ctx.case(case, dkey=json.dumps(H, sort_keys=True), nontrivial=nontrivial(expects), sample=brief(H, expects))
     ctx.count(f"history.{H['kind']}.started")
@@ -373,32 +792,47 @@ def run_chunk(spec, ctx):
         ctx.count("history.abandoned-after-violation")
     else:
         ctx.count(f"history.{H['kind']}.completed")
+        ctx.count(f"history.driver-{H['driver']}.completed")
 
 
 def run_history(H, ctx, case):
     import numpy as np
     import molli as ml
-    from molli.pipeline import jobmap, JobOutput
+    from molli.pipeline import JobOutput
     from vmon.models import jobmapmodel as jm
 
     vector = H["kind"] == "vector"
+    alt = H["driver"] == "B"
+    names = H["names"]
+    renamed = any(k != v for k, v in names.items())
     Lib = ml.ConformerLibrary if vector else ml.MoleculeLibrary
     ext = ".clib" if vector else ".mlib"
-    root = Path(ctx.tmp) / "h"
+    root = Path(ctx.tmp).absolute() / "h"
     shutil.rmtree(root, ignore_errors=True)
-    cdir, scratch, cache = root / "counters", root / "scratch", root / "cache"
-    for p in (cdir, scratch):
+    cdir, scratch, chome, bindir = root / "counters", root / "scratch", root / "cachehome", root / "bin"
+    for p in (cdir, scratch, chome, bindir):
         p.mkdir(parents=True)
-    drv = make_driver({"cdir": str(cdir), "plans": H["plans"]})
-    job = drv.work_ens if vector else drv.work_m
+    (bindir / "qsub").write_text(QSUB)
+    (bindir / "qstat").write_text(QSTAT)
+    for p in bindir.iterdir():
+        p.chmod(0o755)
+    drvcfg = {"driver": H["driver"], "cdir": str(cdir), "retfiles": H["retfiles"],
+              "plans": {cjob(H, j): p for j, p in H["plans"].items()},
+              "shapes": {cjob(H, j): s for j, s in H["shapes"].items()}}
+    from_cjob = {cjob(H, j): j for j in H["plans"]}
+    from_name = {v: k for k, v in names.items()}
+    n_return = len(RETFILES[H["retfiles"]] or ())
+
+    model = model_for(H)
 
     # ---- objects
     def make_obj(key, pre=False):
         i = (H["keys"] + ONLY_POOL).index(key)
-        m = ml.Molecule(n_atoms=2 + i % 2, name=key)
+        m = ml.Molecule(n_atoms=2 + i % 2, name=names.get(key, key))
         xyz = np.zeros((m.n_atoms, 3))
         xyz[:, 1] = np.arange(m.n_atoms) + 0.25 * i
         xyz[0, 0] = -1.0
+        xyz[0, 2] = float(model.version.get(key, 0))      # the content of the item (edited between runs)
         m.coords = xyz
         if not vector:
             if pre:
@@ -431,38 +865,39 @@ def run_history(H, ctx, case):
                     lib[k] = make_obj(k, pre=True)
     del src, lib
 
-    model = model_for(H)
-
     # ---- observation helpers
     def counts():
         out = {}
         for j in H["plans"]:
-            p = cdir / j
+            p = cdir / cjob(H, j)
             out[j] = len(p.read_text().splitlines()) if p.exists() else 0
         return out
 
     def norm_rec(key, rec, name):
+        want_name = names.get(key, key)
         if not isinstance(rec, dict):
             return {"unrecognised": repr(rec)[:80]}
         if "pre" in rec:
-            return {"pre": rec["pre"]} if name == key else {"pre": rec["pre"], "name": name}
+            return {"pre": rec["pre"]} if name == want_name else {"pre": rec["pre"], "name": name}
 
         def out1(o):
             try:
-                return {"job": o.get("job"), "arg": o.get("arg"), "attempt": int(o.get("attempt")),
-                        "status": o.get("status")}
+                return {"job": from_cjob.get(o.get("job"), f"?{o.get('job')}"), "arg": o.get("arg"),
+                        "ver": int(o.get("ver", 0)), "attempt": int(o.get("attempt")), "status": o.get("status")}
             except Exception:
                 return {"unrecognised": repr(o)[:80]}
         if vector:
-            v = {"obj": rec.get("obj"), "outs": [out1(o) for o in rec.get("outs", ())]}
+            v = {"obj": from_name.get(rec.get("obj"), f"?{rec.get('obj')}"),
+                 "outs": [out1(o) for o in rec.get("outs", ())]}
             pa = set(rec.get("post_args", ()))
             v["post_arg"] = pa.pop() if len(pa) == 1 else sorted(pa)
-            objs = list(rec.get("objs", ()))
+            objs = [from_cjob.get(o, f"?{o}") for o in rec.get("objs", ())]
             if objs != [o["job"] for o in v["outs"] if "job" in o]:
                 v["objs"] = objs           # conformer i was processed with the output of another job
         else:
-            v = {"obj": rec.get("obj"), "post_arg": rec.get("post_arg"), "outs": [out1(rec.get("out", {}))]}
-        if name != key:
+            v = {"obj": from_cjob.get(rec.get("obj"), f"?{rec.get('obj')}"), "post_arg": rec.get("post_arg"),
+                 "outs": [out1(rec.get("out", {}))]}
+        if name != want_name:
             v["name"] = name
         return v
 
@@ -481,9 +916,9 @@ def run_history(H, ctx, case):
                     out[k] = {"unreadable": f"{type(e).__name__}: {e}"[:120]}
         return out
 
-    # ---- cache files (located by search; only the tamper steps use them)
+    # ---- cache files (located by search below the cache home; only the tamper steps use them)
     def cache_files(j):
-        return [p for p in cache.rglob(f"{j}.out") if p.is_file()] if cache.is_dir() else []
+        return [p for p in chome.rglob(f"{j}.out") if p.is_file()]
 
     def cache_home():
         for j in H["plans"]:
@@ -533,7 +968,7 @@ def run_history(H, ctx, case):
             (sfiles[0].parent / f"{dst_job}.out").write_bytes(sfiles[0].read_bytes())
             for p in cache_files(dst_job)[1:]:
                 p.write_bytes(sfiles[0].read_bytes())
-        elif op in ("flip_exit", "rehash"):
+        elif op in ("flip_exit", "rehash", "nohash", "noexit", "nofiles"):
             e = model.cache.get(j)
             if e is None or not e.readable:
                 ctx.count("tamper.skipped.nothing-to-do")
@@ -542,13 +977,39 @@ def run_history(H, ctx, case):
                 o = JobOutput.load(p)
                 if op == "flip_exit":
                     o.exitcode = 2
-                else:
+                elif op == "rehash":
                     o.input_hash = b"c18-not-the-hash-of-any-input"
+                elif op == "nohash":       # e.g. written by another tool / an older version
+                    o.input_hash = None
+                elif op == "noexit":
+                    o.exitcode = None
+                else:
+                    o.files = None
                 o.dump(p)
         if not jm.apply_tamper(model, tuple(t)):
             raise RuntimeError(f"tamper {t} applied to the files but not to the model")
         ctx.count("tamper.applied")
         ctx.count(f"tamper.{op}")
+
+    def real_run(r, ridx):
+        cfg = {"driver": drvcfg, "vector": vector, "cwd": str(chome), "cache_rel": "cache",
+               "cacheform": H["cacheform"], "scratch": str(scratch), "scratchform": r.get("scratchform", "path"),
+               "src": str(src_path), "dst": str(dst_paths[r["dest"]]), "arg": r["arg"],
+               "positional": r["positional"], "n_workers": r["n_workers"], "strict": H["strict"],
+               "entry": H["entry"], "bin": str(bindir)}
+        if not H["proc"]:
+            return call_run(cfg)
+        # an interpreter of its own for every run (own string-hash seed): nothing but the files is shared between
+        # the run that fills the cache and the run that reuses it
+        cf, of = root / f"run{ridx}.json", root / f"run{ridx}.out.json"
+        cf.write_text(json.dumps(cfg))
+        env = {**os.environ, "PYTHONHASHSEED": str(r.get("hashseed", 1 + ridx))}
+        p = subprocess.run([sys.executable, "-m", "vmon.models.c18_procrun", str(cf), str(of)], env=env,
+                           cwd=str(root), capture_output=True, text=True, timeout=4 * WATCHDOG)   # the chunk watchdog decides
+        if not of.exists():
+            raise RuntimeError(f"run {ridx} in its own interpreter left no report: rc={p.returncode} "
+                               f"stderr={(p.stderr or '')[-600:]}")
+        return json.loads(of.read_text())["exc"]
 
     # ---- the runs
     for ridx, r in enumerate(H["runs"]):
@@ -564,37 +1025,41 @@ def run_history(H, ctx, case):
             src_have.extend(new)
             ctx.count("source.grown")
             del s
+        # items edited in the source: same key, same name, other content (the library file is written anew)
+        edited = [k for k in r.get("edit", ()) if k in src_have]
+        if edited:
+            for k in edited:
+                model.edit(k)
+            s = Lib(src_path, overwrite=True, readonly=False)
+            with s.writing():
+                for k in src_have:
+                    s[k] = make_obj(k)
+            ctx.count("source.item-edited", len(edited))
+            del s
         for t in r["tamper"]:
             tamper(t, ridx)
 
-        x = model.step(source_map(H, r["source"]), r["dest"], r["arg"])
+        x = model.step(source_map(H, r["source"]), r["dest"], r["arg"], strict=H["strict"])
         before = counts()
         others_before = {d: read_dest(d) for d in dst_paths if d != r["dest"]}
         where = {"run": ridx, "arg": r["arg"], "dest": r["dest"], "n_workers": r["n_workers"],
-                 "kind": H["kind"], "profile": H["profile"]}
+                 "kind": H["kind"], "profile": H["profile"], "driver": H["driver"], "entry": H["entry"],
+                 "strict_hash": H["strict"], "separate_process": H["proc"], "cache_dir_form": H["cacheform"],
+                 "scratch_dir_form": r.get("scratchform"), "return_files": RETFILES[H["retfiles"]],
+                 "keys_differ_from_names": renamed, "edited": edited or None}
 
-        source = Lib(src_path, readonly=True)
-        dest = Lib(dst_paths[r["dest"]], readonly=False)
-        kw = dict(cache_dir=cache, scratch_dir=scratch, n_workers=r["n_workers"])
-        if r["positional"]:
-            kw["args"] = (r["arg"],)
-        else:
-            kw["kwargs"] = {"tag": r["arg"]}
         bad = False
-        try:
-            jobmap(job, source, dest, **kw)
-        except Exception as e:  # "the call returns normally"
+        ei = real_run(r, ridx)
+        if ei is not None:
             bad = True
-            key = classify_exception(e, x, model, vector)
-            ctx.violation(key, case=rcase, where=where, error=f"{type(e).__name__}: {e}"[:300],
-                          traceback=[f"{fr.name}:{fr.lineno} {fr.line}"[:140] for fr in
-                                     traceback.extract_tb(e.__traceback__)[-3:]],
+            key = classify_exception(ei, x, model, vector)
+            ctx.violation(key, case=rcase, where=where, error=f"{ei['type']}: {ei['msg']}"[:300],
+                          traceback=[f"{fr[1]}:{fr[2]} {fr[3]}"[:140] for fr in ei["frames"][-3:]],
                           dest_only_keys=x.dest_only,
                           cache={j: model.cache[j].describe() for j in sorted(model.cache)[:6]},
                           history=brief(H, simulate_history(H)))
         else:
             ctx.count("jobmap.returned")
-        del source, dest
         if bad:
             raise Abort()
 
@@ -606,8 +1071,23 @@ def run_history(H, ctx, case):
             got = after[j] - before[j]
             if got == exp:
                 ctx.count(f"job.{'exec' if exp else 'skip'}.{x.why[j]}")
+                if H["proc"] and x.why[j] == "valid-cache":
+                    ctx.count("job.skip.valid-cache.cached-by-another-process")
                 if exp:
                     ctx.count(f"outcome.{x.mode[j]}")
+                    if not H["strict"] and x.mode[j] in ("omit", "fail_file"):
+                        ctx.count(f"outcome.{x.mode[j]}.strict-hash-off")
+                    sh_ = H["shapes"].get(j)
+                    if sh_ and sh_["k"] > 1:
+                        ctx.count("cmd.multi-command-job-executed")
+                        md = x.mode[j]
+                        if md == "aux_fail":
+                            ctx.count("cmd.aux-failed." + ("named" if sh_["named"][sh_["aux"]] else "unnamed")
+                                      + (".after-main" if sh_["aux"] > sh_["main"] else ".before-main"))
+                        elif md in ("fail_file", "fail_nofile") and sh_["main"] < sh_["k"] - 1:
+                            ctx.count("cmd.main-failed.commands-behind-it")
+                    if sh_ and not sh_["named"][sh_["main"]]:
+                        ctx.count("cmd.main-unnamed-executed")
                 continue
             bad = True
             touched.add(j)
@@ -615,7 +1095,7 @@ def run_history(H, ctx, case):
             ctx.violation(exec_key(exp, got, x.why[j]), case=rcase, where=where, job=j, expected_executions=exp,
                           observed_executions=got, reason_expected=x.why[j],
                           cache_entry=e.describe() if e else None, plan=H["plans"][j],
-                          attempts_before=before[j])
+                          commands=H["shapes"].get(j), attempts_before=before[j])
         for j in H["plans"]:
             if j not in x.executions and after[j] != before[j]:
                 bad = True
@@ -635,6 +1115,13 @@ def run_history(H, ctx, case):
                     ctx.count(f"item.{st}")
                     if vector and st == "gained-mixed":
                         ctx.count("item.vector.gained-mixed")
+                    if st.startswith("gained"):
+                        if vector and H["confs"][k] >= 11:
+                            ctx.count("item.vector.many-conformers." + st)
+                        if n_return == 0:
+                            ctx.count("item.gained.no-return-files")
+                        if renamed:
+                            ctx.count("item.gained.key-differs-from-name")
                 elif k in x.dest_only:
                     ctx.count("dest.only-key-preserved")
                 continue
@@ -642,10 +1129,11 @@ def run_history(H, ctx, case):
             ctx.violation(dest_key(k, exp_v, got_v, x, src_now, model), case=rcase, where=where, item=k,
                           expected=exp_v, observed=got_v, item_status=x.item.get(k),
                           jobs={j: {"why": x.why[j], "mode": x.mode.get(j)} for j in src_now.get(k, ())},
-                          plans={j: H["plans"][j] for j in src_now.get(k, ())})
+                          plans={j: H["plans"][j] for j in src_now.get(k, ())},
+                          commands={j: H["shapes"][j] for j in src_now.get(k, ()) if j in H["shapes"]} or None)
         for k in x.item:
-            if x.item[k] == "absent" and k not in obs:
-                ctx.count("item.absent")
+            if x.item[k] in ("absent", "absent-post-raises") and k not in obs:
+                ctx.count(f"item.{x.item[k]}")
         for d, ob in others_before.items():
             now = read_dest(d)
             if now != ob:
@@ -655,6 +1143,18 @@ def run_history(H, ctx, case):
             else:
                 ctx.count("dest.other-unchanged")
         ctx.count("run.checked")
+        if not bad:
+            if pure_cache_run(x):
+                ctx.count("run.nothing-to-execute.gained-from-cache")
+            ctx.count(f"run.entry.{H['entry']}")
+            ctx.count(f"run.driver-{H['driver']}")
+            ctx.count(f"run.cache-dir.{H['cacheform']}")
+            ctx.count(f"run.scratch-dir.{r.get('scratchform', 'path')}")
+            ctx.count(f"run.return-files.{n_return}" + (".empty-tuple" if H["retfiles"] == "empty" else ""))
+            ctx.count("run.strict-hash." + ("on" if H["strict"] else "off"))
+            ctx.count("run." + ("own-interpreter" if H["proc"] else "in-process"))
+            if renamed:
+                ctx.count("run.keys-differ-from-names")
         ctx.count("cache.files-seen", sum(len(cache_files(j)) for j in H["plans"]))
         # passive evidence only (never decides): what the cache holds for the jobs that just ran
         for j, ne in x.new_entries.items():
@@ -663,7 +1163,7 @@ def run_history(H, ctx, case):
             for p in cache_files(j)[:1]:
                 try:
                     o = JobOutput.load(p)
-                    seen = (o.exitcode == 0, "result.txt" in (o.files or {}))
+                    seen = (o.exitcode == 0, n_return == 0 or "result.txt" in (o.files or {}))
                 except Exception:
                     seen = None
                 ctx.count("cache.entry." + ("as-modelled" if seen == (ne.exit_ok, ne.has_file)
@@ -676,25 +1176,28 @@ def run_history(H, ctx, case):
 # ======================================================================================================
 # naming the mechanism of a violation
 # ======================================================================================================
-def classify_exception(e, x, model, vector):
-    tb = traceback.extract_tb(e.__traceback__)
+def classify_exception(ei, x, model, vector):
+    frames = ei["frames"]            # [filename, function, lineno, line], outermost first
     inner = "?"
-    for fr in reversed(tb):
-        if "/molli/" in fr.filename:
-            inner = fr.name
+    for fr in reversed(frames):
+        if "/molli/" in fr[0]:
+            inner = fr[1]
             break
-    in_jobmap = any(fr.name == "jobmap" and "/molli/" in fr.filename for fr in tb)
-    if isinstance(e, KeyError) and x.dest_only and in_jobmap and inner != "put":
-        arg = e.args[0] if e.args else None
-        if isinstance(arg, bytes):
-            arg = arg.decode(errors="replace")
+    in_jobmap = any(fr[1] in ("jobmap", "jobmap_sge") and "/molli/" in fr[0] for fr in frames)
+    if ei["type"] == "KeyError" and x.dest_only and in_jobmap and inner != "put":
+        arg = ei.get("arg0")
         if arg in x.dest_only or any(k in str(arg) for k in x.dest_only):
             return "destination-only-key-keyerror"
-    if isinstance(e, AttributeError) and vector and "hash" in str(e) and inner == "jobmap":
+    if ei["type"] == "AttributeError" and vector and "hash" in ei["msg"] and inner in ("jobmap", "jobmap_sge"):
         cached = [j for j, n in x.executions.items() if x.why[j] not in ("in-destination", "no-cache")]
         if cached:
             return "vectorised-rerun-attributeerror"
-    return f"jobmap-raises:{type(e).__name__}:{inner}"
+    if frames and "/vmon/props/C18" in frames[-1][0] and in_jobmap:
+        # raised by the driver's own prep / post / reduce function and not contained by jobmap
+        return f"jobmap-raises:{ei['type']}:driver-step-of-one-item:{frames[-1][1]}"
+    if inner == "jobmap_sge":
+        inner = "jobmap"
+    return f"jobmap-raises:{ei['type']}:{inner}"
 
 
 def exec_key(exp, got, why):
@@ -704,6 +1207,7 @@ def exec_key(exp, got, why):
         return {
             "cache-missing-return-file": "missing-return-file-cached-as-success",
             "cache-other-input": "cache-of-other-input-reused",
+            "cache-other-input-files-only": "cache-of-other-input-reused:inputs-differ-in-files-only",
             "cache-failed-exit": "failed-cache-entry-reused",
             "cache-unreadable": "unreadable-cache-entry-blocks-execution",
             "no-cache": "item-not-executed",
@@ -735,9 +1239,13 @@ def dest_key(k, exp_v, got_v, x, src_now, model):
         if "crash" in modes:
             for j in jobs:
                 e = model.cache.get(j)
-                if x.mode.get(j) == "crash" and e is not None and e.readable and e.input != (j, x.arg):
+                if x.mode.get(j) == "crash" and e is not None and e.readable and e.input != x.input_id.get(j):
                     return "stale-output-of-other-input-processed"
             return "stale-output-processed-after-runner-death"
+        if "aux_fail" in modes:
+            return "item-with-failed-auxiliary-command-in-destination"
+        if st == "absent-post-raises":
+            return "item-whose-post-step-raised-in-destination"
         return "failed-item-in-destination"
     # both present, values differ: which field
     if not isinstance(got_v, dict) or "outs" not in got_v:
@@ -757,6 +1265,8 @@ def dest_key(k, exp_v, got_v, x, src_now, model):
             return "failed-run-processed"
         if a.get("arg") != b.get("arg"):
             return "result-from-output-of-other-arguments"
+        if a.get("ver") != b.get("ver"):
+            return "result-from-output-of-other-item-content"
         if a.get("attempt") != b.get("attempt"):
             return "result-from-stale-attempt"
     if got_v.get("post_arg") != exp_v["post_arg"]:
@@ -764,11 +1274,15 @@ def dest_key(k, exp_v, got_v, x, src_now, model):
     return "result-value-differs"
 
 
-LEVEL_TEXT = ("Held on the executions produced: every history is a sequence of real jobmap calls (real library files, "
-              "real _molli_run subprocesses, real cache directory) whose every run is compared with an executable "
-              "reference model - executions per job counted from files the commands write themselves, destination "
-              "contents read back through a fresh handle. Reach is that of the history generator (six directed "
-              "profiles x single/vectorised); not a proof.")
+LEVEL_TEXT = ("Held on the executions produced: every history is a sequence of real jobmap / jobmap_sge calls (real "
+              "library files, real _molli_run subprocesses, real cache directory) whose every run is compared with an "
+              "executable reference model - executions per job counted from files the commands write themselves, "
+              "destination contents read back through a fresh handle. Reach is that of the history generator (nine "
+              "directed profiles x single/vectorised x two driver shapes x in-process / one interpreter per run x "
+              "jobmap / jobmap_sge x strict_hash on/off x argument forms); not a proof.")
 LEVEL_NOTE = ("Trusted: the model in vmon/models/jobmapmodel.py, /bin/sh, the library round trip (C01) used to read "
-              "the destination, JobOutput.load/dump used by two tamper steps. Success of a run is defined as exit 0 "
-              "and return file present. strict_hash=False is not exercised; jobmap_sge needs qsub and is not run.")
+              "the destination, JobOutput.load/dump used by the field-rewriting tamper steps. Success of a run is "
+              "defined as exit 0 of every command and every requested return file present. jobmap_sge runs with "
+              "stand-ins for qsub/qstat (no scheduler here): submission and polling of a real queue are not "
+              "exercised. strict_hash=False is only judged where every cached output stems from the same input. "
+              "Keys, names and paths contain no blanks (the runner command line is split with shlex).")
